@@ -662,6 +662,42 @@ def huge_one(rig, snap, kind, v, size, step):
     return fails
 
 
+def huge_response_one(rig, snap, v, with_max, nget):
+    """[Register a 160 KiB opaque object; a batch of `nget` Gets of it - an ordinary small request whose RESPONSE
+    exceeds the session's own limit of one mebibyte - with or without a Maximum Response Size; Query]: one answer per
+    frame; the batch is answered Response Too Large (nothing that large is sent); the Query is served normally."""
+    reg = G.encode_request(G.mkreq(v, [G.big_register(v, 160 * 1024)]))
+    gets = [{"op": "get", "bid": "g%d" % k, "crypto": None, "uid": "5", "format": None, "compression": False, "wrap": None}
+            for k in range(nget)]
+    req = G.mkreq(v, gets, maxsize=with_max)
+    req["bopt"] = 1
+    big = G.encode_request(req)
+    q = G.encode_request(G.mkreq(12, [{"op": "query", "bid": None, "crypto": None, "functions": [1, 2]}]))
+    rig.restore(snap)
+    res = rig.run_session([reg + big + q], S.make_cert(), digests=False)
+    outs = res["out"]
+    what = "%d Gets of a 160 KiB object under KMIP %s, maximum response size %s" % (nget, v, with_max)
+    if res["run_escaped"]:
+        return [("c12:exception-escaped:huge-response", "%s: %s" % (what, res["run_escaped"]))]
+    esc = [it.get("escaped") for it in res["iterations"] if it.get("escaped") and it.get("escaped") != "ConnectionClosed"]
+    if len(outs) != 3:
+        return [("c12:answers-per-frame:huge-response", "%s: 3 frames were sent, %d answers came back%s"
+                 % (what, len(outs), (" (%s left the message loop)" % esc[0]) if esc else ""))]
+    try:
+        a, b, c = [S.decode_response(o, rig.default_version) for o in outs]
+    except Exception as e:
+        return [("c12:answer-undecodable:huge-response", "%s: %s" % (what, e))]
+    fails = []
+    limit = with_max if with_max is not None else 1048576      # the client's maximum REPLACES the session's own
+    if len(outs[1]) > limit:
+        fails.append(("c12:oversized-response-sent", "%s: a response of %d bytes was sent" % (what, len(outs[1]))))
+    if not S.is_error(b, "RESPONSE_TOO_LARGE") and len(outs[1]) > limit:
+        fails.append(("c12:huge-response-not-refused", "%s: answered %s" % (what, b["items"][:2])))
+    if not (c["items"] and c["items"][0]["status"] == "SUCCESS" and c["items"][0]["op"] == "QUERY"):
+        fails.append(("c12:next-request-not-served:huge-response", "%s: the Query after it was answered %s" % (what, c["items"])))
+    return fails
+
+
 def huge_pass(ctx, rnd, n):
     """framed requests larger than one mebibyte (the session's own size constants), whole and in transport-sized
     pieces, each followed by an ordinary request on the same connection: one answer per frame, the big request is
@@ -680,6 +716,12 @@ def huge_pass(ctx, rnd, n):
             done += 1
             for sig, what in huge_one(rig, snap, kind, v, size, step):
                 ctx.report(sig, what, {"kind": "huge", "what": kind, "version": v, "size": size, "step": step})
+        # small requests with huge RESPONSES
+        for v, mx, ng in ([(12, None, 8), (14, 2000000, 8), (10, None, 7)] if ctx.tier == "quick" else
+                          [(v, mx, ng) for v in (10, 12, 14, 20) for mx in (None, 2000000, 1048577) for ng in (7, 8, 12)]):
+            done += 1
+            for sig, what in huge_response_one(rig, snap, v, mx, ng):
+                ctx.report(sig, what, {"kind": "huge-response", "version": v, "max": mx, "gets": ng})
     finally:
         rig.close()
     ctx.coverage["huge_frame_streams"] = done
@@ -700,6 +742,17 @@ def replay(ctx, rep):
     if (rep.get("replay") or {}).get("kind") == "server-e2e":
         import e2e_hook
         return e2e_hook.replay(ctx, rep)
+    if (rep.get("replay") or {}).get("kind") == "huge-response":
+        r = rep["replay"]
+        rig = S.Rig()
+        try:
+            snap = setup_base(rig)
+            fails = huge_response_one(rig, snap, r["version"], r["max"], r["gets"])
+            for sig, what in fails:
+                print("  %s: %s" % (sig, what))
+            return not fails
+        finally:
+            rig.close()
     if (rep.get("replay") or {}).get("kind") == "huge":
         r = rep["replay"]
         rig = S.Rig()
